@@ -50,6 +50,7 @@ OLDS = [
     {"a": None, "b": True},
     {"l": [1], "x": 0},
     {"a": {"b": 1, "c": 2}},
+    {"n": None, "z": 0, "f": False, "e": "", "l": [], "m": {}},   # every falsy JSON value as an existing value
 ]
 VALUES = [0, 1, 2, 1.0, True, None, "1", [1], [1, 2, 3], {"z": 0}]
 PAYLOADS = [
@@ -94,7 +95,7 @@ def apply_edit(old, steps, act):
 
 def spec_new(route, old):
     k = route[0]
-    if k == "edit":
+    if k in ("edit", "move-edit"):
         return apply_edit(old, route[1], route[2])
     if k == "assign":
         return untyped(route[1])
@@ -156,11 +157,25 @@ def routes_for(old):
             ups.append({k0: bool(old[k0])})
     if isinstance(old[k0], list):
         ups += [{k0: old[k0] + [4]}, {k0: [8] + old[k0][1:]}]
+    # ... and on EVERY existing key: a differing value (conflict), the same value, a differing value plus a new key
+    for k in old:
+        other = "other" if old[k] != "other" else "other2"
+        ups += [{k: other}, {k: old[k]}, {"new": 1, k: other}]
+    seen = set()
     for u in ups:
+        key = json.dumps(typed(u))
+        if key in seen:
+            continue
+        seen.add(key)
         for ov in (False, True):
             out.append(["update", typed(u), ov])
     out.append(["move"])
     out.append(["clone"])
+    # move followed by a state point change through the SAME handle
+    for k in old:
+        out.append(["move-edit", [], ["set", k, typed("moved")]])
+        out.append(["move-edit", [], ["del", k]])
+    out.append(["move-edit", [], ["set", "new", typed(5)]])
     return out
 
 
@@ -177,6 +192,8 @@ def make_desc(old, route, dest, cfg, pay):
     if from_uninit:
         pay = PAYLOADS[0]
     if new is None or from_uninit:
+        dest = "DAbsent"
+    elif route[0] == "move-edit":
         dest = "DAbsent"
     elif route[0] not in ("move", "clone"):
         from signac.job import calc_id
@@ -202,10 +219,17 @@ def gen_inputs(tier, rng):
         # a stratified sample: every route kind, every destination, every handle configuration
         rng.shuffle(pairs)
         by_kind = {}
+        falsy = (None, 0, False, "", [], {})
         for old, r in pairs:
             key = r[0] if r[0] != "edit" else "edit-" + r[2][0]
+            if r[0] == "update":
+                u = untyped(r[1])
+                hit = [k for k in u if k in old]
+                if hit and any(old[k] != u[k] for k in hit):
+                    # the pre-check must fire (or, with overwrite, the value must change) on an existing key
+                    key = "update-conflict-falsy" if any(any(old[k] is f or (old[k] == f and type(old[k]) is type(f)) for f in falsy) for k in hit) else "update-conflict"
             by_kind.setdefault(key, []).append((old, r))
-        quota = {"move": 40, "clone": 40}
+        quota = {"move": 40, "clone": 40, "move-edit": 36, "update-conflict": 30, "update-conflict-falsy": 30, "update": 30}
         chosen = []
         for key, lst in sorted(by_kind.items()):
             n = quota.get(key, 56)
@@ -244,7 +268,7 @@ def build_script(desc, calc_id):
     route = desc["route"]
     new = spec_new(route, old)
     nsp = old if new is None else new
-    rekey = route[0] not in ("move", "clone")
+    rekey = route[0] not in ("move", "clone", "move-edit")
     sd = 0 if rekey else 1
     dproj = "A" if rekey else "B"
     uninit = desc["prov"] == "PUninit"
@@ -289,12 +313,15 @@ def build_script(desc, calc_id):
         main = ["Assign", hm, route[1]]
     elif route[0] == "update":
         main = ["UpdateSp", hm, route[1], route[2]]
-    elif route[0] == "move":
+    elif route[0] in ("move", "move-edit"):
         main = ["Move", hm, 1]
     else:
         main = ["Clone", 1, hm]
     cl = nh if (route[0] == "clone" and desc["dest"] in ("DAbsent", "DHandle") and not uninit) else None
-    ops += [(1, ["Tree"]), (2, main), (3, ["Tree"])]
+    ops += [(1, ["Tree"]), (2, main)]
+    if route[0] == "move-edit":
+        ops.append((4, ["Edit", hm, route[1], route[2]]))
+    ops.append((3, ["Tree"]))
     for k, x in enumerate([hm, c1, c2, dp, pk, cl]):
         if x is not None:
             ops += [(10 + 3 * k, ["IdPath", x]), (11 + 3 * k, ["Sp", x]), (12 + 3 * k, ["Cached", x])]
@@ -317,6 +344,8 @@ def coq_route(L, r):
         return f"(RAssign {L.json(untyped(r[1]))})"
     if r[0] == "update":
         return f"(RUpdate {L.json(untyped(r[1]))} {coq_bool(r[2])})"
+    if r[0] == "move-edit":
+        return f"(RMoveEdit {coq_list([wsops.coq_step(L, s) for s in r[1]], 'pstep')} {wsops.coq_act(L, r[2])})"
     return "RMove" if r[0] == "move" else "RClone"
 
 
@@ -348,7 +377,7 @@ def run_case(desc):
     main_out = next(o for t, _, o in log if t == 2)
     old = untyped(desc["old"])
     new = spec_new(desc["route"], old)
-    changes = new is None or desc["route"][0] in ("move", "clone") or calc_id(new) != calc_id(old)
+    changes = new is None or desc["route"][0] in ("move", "clone", "move-edit") or calc_id(new) != calc_id(old)
     rk = desc["route"][0] if desc["route"][0] != "edit" else "edit-" + desc["route"][2][0]
     kinds = [rk, desc["dest"], desc["prov"], "shallow%d" % desc["shallow"],
              "result-" + (main_out[1] if main_out[0] == "exn" else "ok")]
